@@ -441,4 +441,65 @@ example : (365 * MS_DAY ≤ 1709210096789) ∧ CalFields (fieldsOf 1790642034141
 example : (PStateZ.fill {} (fieldsOf 1790642034141)).Full := fill_full _ _
 example : FieldsOk (fieldsOf 1709210096789) := fieldsOf_ok' _ (by decide)
 
+/-! ## the exported field primitives `LPadInt` / `ToInt`, and what a literal is -/
+
+/-- the exported `LPadInt` on a non-negative value and width is the `pad0` the format model is built from -/
+theorem lpadInt_nonneg (n w : Nat) : lpadInt (n : Int) (w : Int) = pad0 w n := by
+  have h1 : itoaZ (n : Int) = itoa n := by simp [itoaZ]
+  unfold lpadInt pad0
+  simp only [h1]
+  split
+  · rename_i h
+    have : w - (itoa n).length = 0 := by omega
+    simp [this]
+  · rename_i h
+    have : ((w : Int) - ((itoa n).length : Int)).toNat = w - (itoa n).length := by omega
+    rw [this]
+
+/-- **`LPadInt` and `ToInt` are inverse on every field**: what `format` writes for a field of width 2, 3 or 4
+    (`LPadInt(v, w)`, v below 10^w) is read back by `ToInt(r, w)` as `v`, leaving exactly the rest of the text —
+    whatever follows (arbitrary trailing runes) -/
+theorem lpad_toInt_inverse (w n : Nat) (rest : List Char)
+    (h : (w = 2 ∧ n < 100) ∨ (w = 3 ∧ n < 1000) ∨ (w = 4 ∧ n < 10000)) :
+    toIntZ (lpadInt (n : Int) (w : Int) ++ rest) w = some ((n : Int), rest) := by
+  rw [lpadInt_nonneg]
+  apply toIntZ_of_toInt
+  rcases h with ⟨rfl, h⟩ | ⟨rfl, h⟩ | ⟨rfl, h⟩
+  · rw [pad0_2_eq n h]; exact toInt_render n 2 _ rest rfl (by omega) (atoi_render2 n h)
+  · rw [pad0_3_eq n h]; exact toInt_render n 3 _ rest rfl (by omega) (atoi_render3 n h)
+  · rw [pad0_4_eq n h]; exact toInt_render n 4 _ rest rfl (by omega) (atoi_render4 n h)
+
+/-- "patterns composed of the supported field letters and literal separators": the field letters are exactly
+    y m d H M S s — -/
+theorem field_letters_exactly (c : Char) :
+    (letterWidth c).isSome = true ↔ c ∈ ['y', 'm', 'd', 'H', 'M', 'S', 's'] := letterWidth_isSome c
+
+/-- — and **every other rune is a literal**, whichever it is (apostrophe, backslash, percent, digit, another letter,
+    non-ASCII): `format` copies it and goes on, `Parse` (while the index is inside the text) skips one rune of the
+    input and goes on, with the field map untouched.  No rune quotes, escapes or repeats anything. -/
+theorem literal_rune (c : Char) (hc : c ∉ ['y', 'm', 'd', 'H', 'M', 'S', 's']) (f : Fields)
+    (sz i : Nat) (pat inp : List Char) (p : PStateZ) (hi : i < sz) :
+    format (c :: pat) f = c :: format pat f ∧
+    parseLoopZ sz (c :: pat) i inp p = parseLoopZ sz pat (i + 1) (inp.drop 1) p := by
+  have hn : letterWidth c = none := by
+    cases h : letterWidth c with
+    | none => rfl
+    | some w => exact absurd ((letterWidth_isSome c).mp (by simp [h])) hc
+  constructor
+  · simp [format, List.flatMap_cons, fmtRune, hn]
+  · simp [parseLoopZ, hn, Nat.not_le.mpr hi]
+
+/-- `LPadInt` outside the range `format` uses it in: the sign of a negative value ends up behind the padding, a text
+    longer than the width is not cut, a negative width pads nothing (observations, compared by stage M) -/
+example : lpadInt (-5) 3 = "0-5".toList ∧ lpadInt 12345 2 = "12345".toList ∧ lpadInt 7 (-1) = "7".toList := by decide
+
+/-- the apostrophe, the backslash and the percent sign are literals like any other: the round trip holds with them
+    between, around and after the field letters (the pattern of a quoted-literal dialect, read literally) -/
+example : parse "y-m-d'T'H:M:S.s'".toList Fields.origin
+    (format "y-m-d'T'H:M:S.s'".toList (fieldsOf 1709210096789)) = some 1709210096789 :=
+  format_parse_partial _ _ _ (by decide) (by decide)
+example : format "H'M\\S%s".toList (fieldsOf 1709210096789) = "12'34\\56%789".toList := by decide
+example : toIntZ (lpadInt 45 3 ++ "rest".toList) 3 = some (45, "rest".toList) := lpad_toInt_inverse 3 45 _ (by omega)
+example : 'T' ∉ ['y', 'm', 'd', 'H', 'M', 'S', 's'] ∧ '\'' ∉ ['y', 'm', 'd', 'H', 'M', 'S', 's'] := by decide
+
 end C19
